@@ -158,7 +158,11 @@ struct Tape {
 	}
 	std::vector<uint8_t> filled(size_t len)
 	{
-		std::vector<uint8_t> v(len);
+		// (capacity is always non-zero so that data() of an empty result is a valid
+		// non-null pointer: passing NULL with length 0 to the library is not our subject)
+		std::vector<uint8_t> v;
+		v.reserve(len + 1);
+		v.resize(len);
 		if (len) fill(v.data(), len);
 		else (void)u32();
 		return v;
@@ -224,6 +228,8 @@ inline std::string env_str(const char *name, const char *dflt = "")
 	const char *v = getenv(name);
 	return (v && *v) ? v : dflt;
 }
+// zero-filled buffer of n bytes whose data() is never NULL
+inline std::vector<uint8_t> zbuf(size_t n) { std::vector<uint8_t> v; v.reserve(n + 1); v.resize(n); return v; }
 inline bool tier_thorough() { return env_str("VERIF_TIER", "quick") == "thorough"; }
 // enumerators: run one tape, stop the process at the first violation
 void enum_tape(const std::vector<uint8_t> &tp);
